@@ -29,7 +29,7 @@ CLAUSE_PROPERTY = [
     ('let.', 'C04'),
     ('expr.', 'C05'),
     ('ref.', 'C06'), ('gc.', 'C06'), ('minfree', 'C06'),
-    ('frame.held', 'C06'), ('cache.sound', 'C06'), ('decref.', 'C06'),
+    ('frame.held', 'C06'), ('decref.', 'C06'),
     ('reorder.', 'C07'), ('sift.', 'C07'),
     ('auto.', 'C08'),
     ('dyn.', 'C09'),
@@ -47,7 +47,10 @@ CLAUSE_PROPERTY = [
 # clauses that are also gated by a second property
 ALSO = {
     'order.bijection': {'C07', 'C14'},
-    'cache.sound': {'C01', 'C06'},
+    # cache.sound is a SUSPICION (mechanism, not property): never gates;
+    # the drivers issue public-API witness calls instead (rec.cache_witness)
+    'cache.sound': set(),
+    'canon.pred_inverse': set(),
     'op.find_or_add': {'C02'},
 }
 OP_PROPERTY = {   # for "op.<name>" emitted on a malformed table / rejection
@@ -145,6 +148,10 @@ class Check:
         self.extra = {}
         self.exhaustive = False
 
+    def log(self, msg):
+        if os.environ.get('VERIF_VERBOSE'):
+            sys.stderr.write('[%6.1fs] %s\n' % (time.time() - self.t0, msg))
+
     @property
     def quick(self):
         return self.tier == 'quick'
@@ -174,6 +181,7 @@ class Check:
                 if cov.get(a, (0, 0))[1] == 0:
                     raise MachineryError(
                         f'{spec}/{cfg}: action {a} never fired (vacuous)')
+        self.log(f'mc {cfg}: {r["distinct"]} states {r["wall"]:.1f}s')
         self.states += r['distinct']
         self.transitions += r['generated']
         self.mc_runs.append(dict(
@@ -196,6 +204,7 @@ class Check:
             with mp.get_context('fork').Pool(procs) as pool:
                 results = pool.map(_run_task, [(fn, kw) for kw in tasks],
                                    chunksize=1)
+        self.log(f'generated {len(tasks)} tasks of {fn.__name__}')
         shards = []
         for r in results:
             if r.get('shard'):
@@ -209,11 +218,51 @@ class Check:
         return shards, results
 
     # ---- S3b ----
-    def validate(self, spec, cfg, shards, env=None, timeout=3000):
+    def _merge(self, shards, groups):
+        """Concatenate trace shards into at most `groups` files (fewer JVMs).
+
+        Trace ids are rewritten to stay unique; returns (files, back) with
+        back[(file, new_tid)] = (original shard, original tid).
+        """
+        self._nmerge = getattr(self, '_nmerge', 0) + 1
+        files, back = [], {}
+        outs = []
+        for g in range(min(groups, len(shards))):
+            p = os.path.join(self.dir, 'traces',
+                             'merged_%d_%d.ndjson' % (self._nmerge, g))
+            files.append(p)
+            outs.append(open(p, 'w'))
+        new = 0
+        for i, sh in enumerate(shards):
+            g = i % len(outs)
+            with open(sh) as f:
+                for line in f:
+                    assert line.startswith('{"t":'), line[:40]
+                    k = line.index(',')
+                    old = int(line[5:k])
+                    new += 1
+                    outs[g].write('{"t":%d%s' % (new, line[k:]))
+                    back[(files[g], new)] = (sh, old)
+        for o in outs:
+            o.close()
+        return files, back
+
+    def validate(self, spec, cfg, shards, env=None, timeout=3000,
+                 merge=True):
         if not shards:
             return []
-        v, st = tlcrun.validate_shards(spec, cfg, shards, self.pid, env=env,
+        back = None
+        files = shards
+        if merge and len(shards) > tlcrun.NCPU:
+            files, back = self._merge(shards, tlcrun.NCPU)
+        v, st = tlcrun.validate_shards(spec, cfg, files, self.pid, env=env,
                                        timeout=timeout)
+        if back is not None:
+            v = [back[(f, tid)] + (idx, cl, pos)
+                 for (f, tid, idx, cl, pos) in v]
+            for f in files:
+                os.remove(f)
+        self.log(f'validated {len(shards)} shards with {spec}: {st["states"]} states')
         self.verdicts += v
         self.extra.setdefault('tlc_trace_states', 0)
         self.extra['tlc_trace_states'] += st['states']
@@ -241,20 +290,31 @@ class Check:
             f.write(json.dumps(tr, separators=(',', ':')) + '\n')
         v, _ = tlcrun.validate_shards(spec, cfg, [p], self.pid + '_canary',
                                       env=env)
-        hit = any(expect_clause in c for (_, _, _, cl) in v for c in cl)
+        hit = any(expect_clause in c for (_, _, _, cl, _) in v for c in cl)
         if not hit:
             raise MachineryError(
                 f'canary accepted: corruption {where} did not produce '
-                f'{expect_clause} (got {[c for *_, c in v]})')
+                f'{expect_clause} (got {[x[3] for x in v]})')
         os.remove(p)
         self.extra.setdefault('canaries_rejected', 0)
         self.extra['canaries_rejected'] += 1
 
     # ---- verdict handling ----
     def _event_of(self, shard, tid, idx):
+        """Return (trace, event) for a verdict; sweep files are line-based."""
+        if os.path.basename(shard).startswith('sw_'):
+            with open(shard) as f:
+                head = json.loads(f.readline())
+                ev = head
+                for k, line in enumerate(f, start=2):
+                    if k == idx:
+                        ev = json.loads(line)
+                        break
+            tr = dict(t=head.get('t'), meta=head.get('meta', {}),
+                      snapshot=head.get('post'))
+            return tr, ev
         with open(shard) as f:
             for line in f:
-                # cheap pre-filter
                 tr = json.loads(line)
                 if tr.get('t') == tid:
                     return tr, tr['events'][idx - 1]
@@ -265,7 +325,7 @@ class Check:
         violations = []
         known_hits = {}
         other = {}
-        for shard, tid, idx, clauses in self.verdicts:
+        for shard, tid, idx, clauses, pos in self.verdicts:
             tr = ev = None
             for c in clauses:
                 if c == 'trace.unknown_op':
@@ -284,27 +344,32 @@ class Check:
                     known_hits.setdefault(k['id'], [k, 0])
                     known_hits[k['id']][1] += 1
                     continue
-                violations.append((shard, tid, idx, c, tr, ev))
+                violations.append((shard, tid, idx, c, tr, ev, pos))
         for kid, (k, n) in sorted(known_hits.items()):
             print(f'KNOWN-FINDING: property={self.pid} {kid}: '
                   f'{k["description"]} ({n} occurrences)')
         seen = set()
         nviol = 0
-        for shard, tid, idx, c, tr, ev in violations:
-            key = (c, ev.get('op'), ev.get('exc'))
+        for shard, tid, idx, c, tr, ev, pos in violations:
+            key = (c, ev.get('op'), ev.get('exc'), ev.get('sym'))
             nviol += 1
             if key in seen:
                 continue
             seen.add(key)
+            if len(seen) > 25:
+                continue
             rp = os.path.join(self.dir, 'replay',
                               f'{self.pid}_{len(seen)}.json')
             with open(rp, 'w') as f:
                 json.dump(dict(property=self.pid, clause=c, event_index=idx,
-                               op=ev.get('op'), args=ev.get('a'),
+                               position_in_row=pos, shard=shard,
+                               op=ev.get('op'), args=ev.get('a', ev if 'post' not in ev else None),
                                ret=ev.get('ret'), exc=ev.get('exc'),
                                trace=tr), f)
             print(f'VIOLATION property={self.pid} replay={rp}')
-            print(f'  clause={c} op={ev.get("op")} args={json.dumps(ev.get("a"))[:300]} '
+            if len(seen) > 12:
+                continue
+            print(f'  clause={c} op={ev.get("op")} pos={pos} args={json.dumps(ev.get("a", {k: v for k, v in ev.items() if k not in ("post", "rs", "vs", "us")}))[:300]} '
                   f'ret={json.dumps(ev.get("ret"))[:80]} exc={ev.get("exc")} '
                   f'trace={tid} event={idx}')
         self.write_evidence(nviol, known_hits, other)
